@@ -141,7 +141,23 @@ func genCase(t *rapid.T) Case {
 		if name != "@main" && rapid.IntRange(0, 9).Draw(t, name+"leaf") == 0 {
 			return rapid.SampledFrom([]*model.Node{model.Scalar("integer", "1"), model.Scalar("string", `"s"`), model.Arr().Item(model.Scalar("integer", "1"))}).Draw(t, name+"leafk")
 		}
+		// a type whose body is itself a link: alias, nullable alias, choice
+		if name != "@main" && rapid.IntRange(0, 7).Draw(t, name+"alias") == 0 {
+			switch rapid.IntRange(0, 2).Draw(t, name+"aliask") {
+			case 0:
+				return model.Ref(rapid.SampledFrom(names).Draw(t, name+"aliastg"))
+			case 1:
+				return model.Ref(rapid.SampledFrom(names).Draw(t, name+"aliastg"), model.R("nullable", model.Bool(true)))
+			default:
+				if len(names) >= 2 {
+					return model.Choice(rapid.SliceOfNDistinct(rapid.SampledFrom(names), 2, 2, func(s string) string { return s }).Draw(t, name+"aliastgs")...)
+				}
+			}
+		}
 		o := model.Obj()
+		if name != "@main" && rapid.IntRange(0, 9).Draw(t, name+"bodynullable") == 0 {
+			o.Rules = append(o.Rules, model.R("nullable", model.Bool(true)))
+		}
 		ne := rapid.IntRange(0, 3).Draw(t, name+"ne")
 		for j := 0; j < ne; j++ {
 			o.Add(fmt.Sprintf("k%d", j), genLink(t, names, fmt.Sprintf("%s.%d", name, j)))
